@@ -242,9 +242,6 @@ func (s *S3Proxy) ListObjectVersions(ctx context.Context, input *s3.ListObjectVe
 	if input.VersionIdMarker != nil && *input.VersionIdMarker == "" {
 		input.VersionIdMarker = nil
 	}
-	if input.MaxKeys != nil && *input.MaxKeys == 0 {
-		input.MaxKeys = nil
-	}
 	if input.ExpectedBucketOwner != nil && *input.ExpectedBucketOwner == "" {
 		input.ExpectedBucketOwner = nil
 	}
@@ -447,9 +444,6 @@ func (s *S3Proxy) ListMultipartUploads(ctx context.Context, input *s3.ListMultip
 	if input.KeyMarker != nil && *input.KeyMarker == "" {
 		input.KeyMarker = nil
 	}
-	if input.MaxUploads != nil && *input.MaxUploads == 0 {
-		input.MaxUploads = nil
-	}
 	if input.Prefix != nil && *input.Prefix == "" {
 		input.Prefix = nil
 	}
@@ -508,9 +502,6 @@ func (s *S3Proxy) ListMultipartUploads(ctx context.Context, input *s3.ListMultip
 func (s *S3Proxy) ListParts(ctx context.Context, input *s3.ListPartsInput) (s3response.ListPartsResult, error) {
 	if input.ExpectedBucketOwner != nil && *input.ExpectedBucketOwner == "" {
 		input.ExpectedBucketOwner = nil
-	}
-	if input.MaxParts != nil && *input.MaxParts == 0 {
-		input.MaxParts = nil
 	}
 	if input.PartNumberMarker != nil && *input.PartNumberMarker == "" {
 		input.PartNumberMarker = nil
@@ -1190,9 +1181,6 @@ func (s *S3Proxy) ListObjects(ctx context.Context, input *s3.ListObjectsInput) (
 	if input.Marker != nil && *input.Marker == "" {
 		input.Marker = nil
 	}
-	if input.MaxKeys != nil && *input.MaxKeys == 0 {
-		input.MaxKeys = nil
-	}
 	if input.Prefix != nil && *input.Prefix == "" {
 		input.Prefix = nil
 	}
@@ -1226,9 +1214,6 @@ func (s *S3Proxy) ListObjectsV2(ctx context.Context, input *s3.ListObjectsV2Inpu
 	}
 	if input.ExpectedBucketOwner != nil && *input.ExpectedBucketOwner == "" {
 		input.ExpectedBucketOwner = nil
-	}
-	if input.MaxKeys != nil && *input.MaxKeys == 0 {
-		input.MaxKeys = nil
 	}
 	if input.Prefix != nil && *input.Prefix == "" {
 		input.Prefix = nil
